@@ -195,6 +195,15 @@ func runRemote(t *testing.T, r *rep.Reporter, c *rep.Case, idx int) {
 	nTx := p.Range(1, 4)
 	var cur atomic.Int32
 
+	// mid-DATA faults: a dimension of its own (separate PRNG stream)
+	pm := prng.New(r.Seed(), uint64(idx), "c09-remote-middata")
+	mids := map[int]*midPlan{}
+	for tx := 1; tx <= nTx; tx++ {
+		if m := genMid(pm, spellings); m != nil {
+			mids[tx] = m
+		}
+	}
+
 	hops := map[string]*hop{}
 	hostAddr := map[string]string{}
 	res := &fakeResolver{mx: map[string]string{}}
@@ -206,7 +215,7 @@ func runRemote(t *testing.T, r *rep.Reporter, c *rep.Case, idx int) {
 				plans[tx] = genPlan(p, false)
 			}
 		}
-		h, err := newHop(sp, false, p.Chance(2, 5), &cur, plans)
+		h, err := newHop(sp, false, p.Chance(2, 5), &cur, plans, mids)
 		if err != nil {
 			c.Inconclusive("environment: cannot start a scripted next hop: " + err.Error())
 			return
@@ -284,6 +293,11 @@ func runRemote(t *testing.T, r *rep.Reporter, c *rep.Case, idx int) {
 		}
 		judged := false
 		var body buffer.Buffer = testBody(p)
+		mid := mids[tx]
+		gb := midBody(mid)
+		if gb != nil {
+			body = gb
+		}
 		if openFail {
 			body = failBuffer{}
 		}
@@ -291,7 +305,7 @@ func runRemote(t *testing.T, r *rep.Reporter, c *rep.Case, idx int) {
 		if len(lt.Accepted) > 0 || callBodyAnyway {
 			col := &collector{}
 			t0 := time.Now()
-			pd.BodyNonAtomic(ctx, col, testHeader(), body)
+			pd.BodyNonAtomic(ctx, col, midHeader(mid), body)
 			slow := time.Since(t0) > slowCall
 			calls = col.finish()
 			judged = !slow
@@ -308,6 +322,7 @@ func runRemote(t *testing.T, r *rep.Reporter, c *rep.Case, idx int) {
 		// next-hop truth for this logical transaction
 		type hopFacts struct {
 			committed, reachedData bool
+			reachedData354         bool
 			accepted               int
 			recs                   []smtpd.TxnRecord
 		}
@@ -320,6 +335,9 @@ func runRemote(t *testing.T, r *rep.Reporter, c *rep.Case, idx int) {
 				}
 				if rec.DataCmdCode != 0 {
 					f.reachedData = true
+				}
+				if rec.DataCmdCode/100 == 3 {
+					f.reachedData354 = true
 				}
 				f.accepted += len(rec.AcceptedRcpts())
 				if rec.N > 1 {
@@ -350,6 +368,12 @@ func runRemote(t *testing.T, r *rep.Reporter, c *rep.Case, idx int) {
 				lt.Fates = append(lt.Fates, fateFailed)
 			case pl != nil && pl.DotDrop == "after":
 				lt.Fates = append(lt.Fates, fateAmbiguous)
+			case f.committed && mid.cutsStream():
+				// The client could not produce the whole message, yet the next hop
+				// committed something (a truncated message): which report is right is
+				// not C09's business. Never seen on the unchanged tree.
+				lt.Fates = append(lt.Fates, fateAmbiguous)
+				r.Count("remote_hop_committed_a_cut_message_observed", 1)
 			case f.committed:
 				lt.Fates = append(lt.Fates, fateCommitted)
 			default:
@@ -364,7 +388,7 @@ func runRemote(t *testing.T, r *rep.Reporter, c *rep.Case, idx int) {
 		wit := map[string]any{
 			"group": "remote", "transaction": tx, "of": nTx, "supplied": lt.Supplied, "accepted": lt.Accepted,
 			"addrcpt_errors": rcptErr, "smtputf8_requested": meta.SMTPOpts.UTF8, "body_open_fails": openFail,
-			"setstatus_calls": calls, "earlier_transactions": hist,
+			"setstatus_calls": calls, "earlier_transactions": hist, "mid_data_fault": mid,
 		}
 		hw := map[string]any{}
 		for sp, f := range facts {
@@ -411,6 +435,21 @@ func runRemote(t *testing.T, r *rep.Reporter, c *rep.Case, idx int) {
 			if openFail {
 				r.Count("remote_body_open_failures", 1)
 			}
+			countMid(r, "remote", mid, gb, openFail, func() (reached, failedAfter int) {
+				for i, a := range lt.Accepted {
+					_, sp := splitAddr(a)
+					if !facts[sp].reachedData354 {
+						continue
+					}
+					if mid.cutsStream() || mid.abortsAt(sp) {
+						reached++
+						if lt.Fates[i] == fateFailed {
+							failedAfter++
+						}
+					}
+				}
+				return
+			})
 			accNow := map[string]bool{}
 			for _, a := range lt.Accepted {
 				accNow[a] = true
@@ -470,7 +509,7 @@ func runRemote(t *testing.T, r *rep.Reporter, c *rep.Case, idx int) {
 			}
 		}
 		sort.Strings(cls)
-		shape = append(shape, fmt.Sprintf("[%s|%s|open=%v]", strings.Join(cls, ","), strings.Join(sortedKeys(stages), ","), openFail))
+		shape = append(shape, fmt.Sprintf("[%s|%s|open=%v|mid=%s]", strings.Join(cls, ","), strings.Join(sortedKeys(stages), ","), openFail, mid.kind()))
 		for s := range stages {
 			r.Distinct("fault_stages", "remote:"+s)
 		}
@@ -496,7 +535,14 @@ func runLMTP(t *testing.T, r *rep.Reporter, c *rep.Case, idx int) {
 			plans[tx] = genPlan(p, !plainSMTP)
 		}
 	}
-	h, err := newHop("lmtp", !plainSMTP, p.Chance(2, 5), &cur, plans)
+	pm := prng.New(r.Seed(), uint64(idx), "c09-lmtp-middata")
+	mids := map[int]*midPlan{}
+	for tx := 1; tx <= nTx; tx++ {
+		if m := genMid(pm, nil); m != nil {
+			mids[tx] = m
+		}
+	}
+	h, err := newHop("lmtp", !plainSMTP, p.Chance(2, 5), &cur, plans, mids)
 	if err != nil {
 		c.Inconclusive("environment: cannot start a scripted next hop: " + err.Error())
 		return
@@ -554,13 +600,31 @@ func runLMTP(t *testing.T, r *rep.Reporter, c *rep.Case, idx int) {
 				t.Fatal("target.smtp delivery implements PartialDelivery; harness assumption broken")
 			}
 			// No per-recipient results are offered: the statement does not apply.
+			// The mid-DATA faults are exercised all the same (observation only).
 			if len(lt.Accepted) > 0 {
-				d.Body(ctx, testHeader(), testBody(p))
+				mid := mids[tx]
+				var body buffer.Buffer = testBody(p)
+				if gb := midBody(mid); gb != nil {
+					body = gb
+				}
+				berr := d.Body(ctx, midHeader(mid), body)
 				d.Commit(ctx)
+				committed := false
+				for _, rec := range h.newTxns() {
+					if rec.Committed {
+						committed = true
+					}
+				}
+				if mid != nil {
+					r.Count("smtp_downstream_mid_data_fault_transactions", 1)
+				}
+				if berr == nil && !committed {
+					r.Count("smtp_downstream_body_ok_but_hop_did_not_commit_observed", 1)
+				}
 			} else {
 				d.Abort(ctx)
+				h.newTxns()
 			}
-			h.newTxns()
 			r.Count("smtp_downstream_transactions_without_partial_interface", 1)
 			shape = append(shape, "[plain-smtp]")
 			continue
@@ -577,6 +641,11 @@ func runLMTP(t *testing.T, r *rep.Reporter, c *rep.Case, idx int) {
 			continue
 		}
 		var body buffer.Buffer = testBody(p)
+		mid := mids[tx]
+		gb := midBody(mid)
+		if gb != nil {
+			body = gb
+		}
 		if openFail {
 			body = failBuffer{}
 		}
@@ -584,12 +653,12 @@ func runLMTP(t *testing.T, r *rep.Reporter, c *rep.Case, idx int) {
 		wit := map[string]any{
 			"group": "lmtp", "transaction": tx, "of": nTx, "supplied": lt.Supplied, "accepted": lt.Accepted,
 			"addrcpt_errors": rcptErr, "smtputf8_requested": meta.SMTPOpts.UTF8, "next_hop_smtputf8": h.utf8,
-			"body_open_fails": openFail, "plan": plans[tx], "earlier_transactions": hist,
+			"body_open_fails": openFail, "plan": plans[tx], "earlier_transactions": hist, "mid_data_fault": mid,
 		}
 		t0 := time.Now()
 		panicked := func() (pv any) {
 			defer func() { pv = recover() }()
-			pd.BodyNonAtomic(ctx, col, testHeader(), body)
+			pd.BodyNonAtomic(ctx, col, midHeader(mid), body)
 			return nil
 		}()
 		slow := time.Since(t0) > slowCall
@@ -598,6 +667,8 @@ func runLMTP(t *testing.T, r *rep.Reporter, c *rep.Case, idx int) {
 			cause := "other"
 			if openFail {
 				cause = "body-open-error"
+			} else if mid != nil && mid.Kind != "big-ok" {
+				cause = "mid-data-" + mid.Kind
 			}
 			wit["setstatus_calls"] = calls
 			c.Violation("leaf/panic/lmtp/"+cause, fmt.Sprintf("BodyNonAtomic panicked (%v) after reporting %d result(s); the remaining recipients never get a result", panicked, len(calls)), wit)
@@ -643,6 +714,10 @@ func runLMTP(t *testing.T, r *rep.Reporter, c *rep.Case, idx int) {
 			switch {
 			case openFail:
 				lt.Fates = append(lt.Fates, fateFailed)
+			case i < len(rec.RcptDotCodes) && rec.RcptDotCodes[i]/100 == 2 && mid.cutsStream():
+				// see runRemote: a truncated message was committed; not judged
+				lt.Fates = append(lt.Fates, fateAmbiguous)
+				r.Count("lmtp_hop_committed_a_cut_message_observed", 1)
 			case i < len(rec.RcptDotCodes) && rec.RcptDotCodes[i]/100 == 2:
 				lt.Fates = append(lt.Fates, fateCommitted)
 			default:
@@ -655,6 +730,18 @@ func runLMTP(t *testing.T, r *rep.Reporter, c *rep.Case, idx int) {
 		if openFail {
 			r.Count("lmtp_body_open_failures", 1)
 		}
+		countMid(r, "lmtp", mid, gb, openFail, func() (reached, failedAfter int) {
+			if rec.DataCmdCode/100 != 3 || !(mid.cutsStream() || mid.abortsAt("lmtp")) {
+				return 0, 0
+			}
+			for i := range lt.Accepted {
+				reached++
+				if lt.Fates[i] == fateFailed {
+					failedAfter++
+				}
+			}
+			return
+		})
 		report(r, c, judgeLeaf(lt), wit)
 		nontrivial = true
 		mixed := map[fate]bool{}
@@ -662,10 +749,13 @@ func runLMTP(t *testing.T, r *rep.Reporter, c *rep.Case, idx int) {
 		for i, a := range lt.Accepted {
 			r.Distinct("recipient_classes_accepted", addrClass(a))
 			mixed[lt.Fates[i]] = true
-			if lt.Fates[i] == fateFailed {
+			switch lt.Fates[i] {
+			case fateFailed:
 				r.Count("lmtp_accepted_rcpt_failed_at_hop", 1)
-			} else {
+			case fateCommitted:
 				r.Count("lmtp_accepted_rcpt_committed_at_hop", 1)
+			default:
+				r.Count("lmtp_accepted_rcpt_ambiguous", 1)
 			}
 			if cv := converted(a); cv != "" && cv != a && !h.utf8 {
 				r.Count("lmtp_idn_rcpt_converted_for_hop", 1)
@@ -686,7 +776,7 @@ func runLMTP(t *testing.T, r *rep.Reporter, c *rep.Case, idx int) {
 		for _, a := range lt.Accepted {
 			earlier[a] = true
 		}
-		shape = append(shape, fmt.Sprintf("[%s|%s|open=%v|mixed=%v]", strings.Join(sortedKeys(cm), ","), strings.Join(plans[tx].faults(), ","), openFail, len(mixed) > 1))
+		shape = append(shape, fmt.Sprintf("[%s|%s|open=%v|mixed=%v|mid=%s]", strings.Join(sortedKeys(cm), ","), strings.Join(plans[tx].faults(), ","), openFail, len(mixed) > 1, mid.kind()))
 	}
 	sample(r, "lmtp", map[string]any{"group": "lmtp", "index": idx, "transactions": nTx, "pool": pool, "next_hop_smtputf8": h.utf8, "first_transaction": firstOf(hist)})
 	c.Done("lmtp:"+strings.Join(shape, ">"), nontrivial)
@@ -723,6 +813,21 @@ func init() {
 // object). VERIF_C09_JUDGE_NESTED=0 turns that class into a counter again
 // (debugging on trees without that fix).
 var judgeNested = os.Getenv("VERIF_C09_JUDGE_NESTED") != "0"
+
+// judgeRefusedShared (default ON since fix 235eda5; VERIF_C09_JUDGE_REFUSED_SHARED=0 switches the class off):
+// a client-supplied recipient b whose AddRcpt the pipeline REFUSED, of whose
+// expansion no target accepted anything, still gets a result when it shares an
+// effective address x with an accepted recipient a on one partial target (the
+// target took x for a, then refused x for b - e.g. a recipient limit): msgpipeline
+// appends b to delivery.originalRcpts[x] BEFORE it asks the target and never takes
+// it back, so the status of x goes out under a AND b. That breaks "none for any
+// other address"; it was found on the unchanged tree in round 7 and repaired by
+// 235eda5. With the switch off the class is counted
+// (pipe_result_for_refused_rcpt_nothing_accepted_observed_not_judged) instead of
+// judged. VERIF_C09_JUDGE_REFUSED_SHARED=1 judges it
+// (pipeline/foreign-key/refused-recipient/...), for use once msgpipeline is
+// repaired and as a break drill.
+var judgeRefusedShared = os.Getenv("VERIF_C09_JUDGE_REFUSED_SHARED") != "0" // judged by default since fix 235eda5 landed in /repo
 
 // modelEv is one predicted target call of the pipeline routing model.
 type modelEv struct {
@@ -803,6 +908,12 @@ func runPipe(t *testing.T, r *rep.Reporter, c *rep.Case, idx int) {
 			case mx.StRcpt:
 				if hash01(salt, name, "rcpt", pt.Rcpt) < 0.07 {
 					return mx.MakeErr(mx.Perm, 0, "rcpt")
+				}
+				// a quarter of the targets take only 1-3 recipients per transaction
+				// ("452 too many recipients"): the same effective address can then be
+				// accepted for one client-supplied recipient and refused for a later one
+				if hash01(salt, name, "rcpt-limit") < 0.25 && pt.RcptIdx >= 1+int(hash01(salt, name, "rcpt-limit-n")*3) {
+					return mx.MakeErr(mx.Temp, 0, "too many recipients")
 				}
 			case mx.StBody:
 				if hash01(salt, name, "body", pt.MsgID) < 0.15 {
@@ -1046,7 +1157,7 @@ func runPipe(t *testing.T, r *rep.Reporter, c *rep.Case, idx int) {
 		if err != nil {
 			t.Fatalf("pipeline Start: %v", err)
 		}
-		pt := &pipeTxn{Accepted: map[string]bool{}, Failed: map[string]bool{}, Rewrote: map[string]bool{}, Effective: map[string]bool{}, Entangled: map[string]bool{}, FailedClean: map[string]bool{}, FailedCleanTop: map[string]bool{}, Chained: map[string]bool{}}
+		pt := &pipeTxn{PartAccepted: map[string]bool{}, RefusedNested: map[string]bool{}, JudgeRefusedShared: judgeRefusedShared, Accepted: map[string]bool{}, Failed: map[string]bool{}, Rewrote: map[string]bool{}, Effective: map[string]bool{}, Entangled: map[string]bool{}, FailedClean: map[string]bool{}, FailedCleanTop: map[string]bool{}, Chained: map[string]bool{}}
 		n := p.Range(1, 5)
 		var must []string
 		for _, j := range p.Perm(len(chainNamed)) {
@@ -1072,6 +1183,8 @@ func runPipe(t *testing.T, r *rep.Reporter, c *rep.Case, idx int) {
 			m[k][a] = true
 		}
 		rcptErr := map[string]string{}
+		takenBy := map[eff]bool{}          // (delivery, address) a target accepted so far
+		refusedShared := map[string]bool{} // client recipients refused on an address the same target had accepted before
 		if retryOf != nil {
 			n = len(retryOf)
 		}
@@ -1124,6 +1237,17 @@ func runPipe(t *testing.T, r *rep.Reporter, c *rep.Case, idx int) {
 				}
 				if e.Class == mx.OK {
 					effOf[a] = append(effOf[a], ef)
+					pt.PartAccepted[a] = true
+					takenBy[ef] = true
+				} else {
+					if m.nested {
+						pt.RefusedNested[a] = true
+					}
+					if takenBy[ef] {
+						// the target had accepted this very address before (for an
+						// earlier recipient of the transaction) and refuses it now
+						refusedShared[a] = true
+					}
 				}
 			}
 			if err == nil && k != len(mdl) && modelMismatch == "" {
@@ -1245,6 +1369,30 @@ func runPipe(t *testing.T, r *rep.Reporter, c *rep.Case, idx int) {
 		r.Count("pipe_client_rcpt_entangled_n_to_1", int64(len(pt.Entangled)))
 		pt.JudgeNested = judgeNested
 		fs, unjCollision, unjNested := judgePipe(pt)
+		if pt.refusedPart > 0 {
+			r.Count("pipe_result_for_refused_rcpt_part_of_expansion_accepted_not_judged", int64(pt.refusedPart))
+		}
+		if pt.refusedNothing > 0 {
+			if judgeRefusedShared {
+				r.Count("pipe_result_for_refused_rcpt_nothing_accepted_judged", int64(pt.refusedNothing))
+			} else {
+				r.Count("pipe_result_for_refused_rcpt_nothing_accepted_observed_not_judged", int64(pt.refusedNothing))
+			}
+		}
+		nRefusedSharing := 0
+		for a := range rcptErr {
+			if !pt.Accepted[a] && !pt.PartAccepted[a] {
+				nRefusedSharing++
+			}
+		}
+		r.Count("pipe_client_rcpt_refused_with_nothing_accepted", int64(nRefusedSharing))
+		nShared := 0
+		for a := range refusedShared {
+			if !pt.Accepted[a] && !pt.PartAccepted[a] {
+				nShared++
+			}
+		}
+		r.Count("pipe_client_rcpt_refused_on_address_the_target_had_accepted_before", int64(nShared))
 		if unjCollision > 0 {
 			r.Count("pipe_collision_missing_failure_observed_not_judged", int64(unjCollision))
 		}
